@@ -55,7 +55,9 @@ EmittedLengthsOk(kind, v, out) ==
     [] v.k = "Control" -> Len(out) >= 12 /\ U16At(out, 2) = Len(out) /\ Tiles(out, 12)
     [] OTHER -> TRUE
 
-\* Message::write / AVP::write into a writer holding `prefix`
+\* Message::write / AVP::write into a writer holding `prefix`.
+\* `solo` (logged when the prefix is non-empty) is the implementation's own encoding of the same value
+\* into an EMPTY writer: C09 is judged against it, not against the specification's octets.
 VEncode(ev) ==
   LET prefix == PrefixOf(ev)
       sp == EncodeInto(prefix, ev.kind, ev.v)
@@ -67,10 +69,13 @@ VEncode(ev) ==
            \o T(Len(ev.out.v) >= Len(prefix) /\ ~EmittedLengthsOk(ev.kind, ev.v, Drop(ev.out.v, Len(prefix))), "length-field")
            \o T(ev.kind = "avp" /\ Has(ev, "glen") /\ 6 + ev.glen # Len(ev.out.v) - Len(prefix), "get-length"))
      \o T(ev.kind = "avp" /\ Has(ev, "glen") /\ ev.glen # ValueLength(ev.v), "get-length-spec")
+     \o T(Has(ev, "solo") /\ ev.solo.t = "ok" /\ (ev.out.t # "ok" \/ ev.out.v # prefix \o ev.solo.v), "position-dependent")
+     \o T(Has(ev, "solo") /\ ev.solo.t = "panic" /\ ev.out.t = "ok", "position-dependent")
      \o (IF Has(ev, "calls") THEN WCallTags(ev.calls, Len(prefix), Len(prefix), 1) ELSE << >>)
      \o IoTags(ev)
 
-\* several values into one writer: the concatenation of the individual encodings (C09)
+\* several values into one writer: the concatenation of the individual encodings (C09).
+\* outs[i] = result after the i-th value; solos[i] = the implementation's encoding of value i alone.
 RECURSIVE EncSeqTags(_, _, _)
 EncSeqTags(ev, buf, i) ==
   IF i > Len(ev.items) THEN T(Len(ev.outs) = Len(ev.items) /\ ev.buf # buf, "octets")
@@ -82,47 +87,69 @@ EncSeqTags(ev, buf, i) ==
           ELSE IF o.len # Len(sp.buf) THEN <<"octets">>
           ELSE EncSeqTags(ev, sp.buf, i + 1)
 
-VEncodeSeq(ev) == EncSeqTags(ev, << >>, 1) \o IoTags(ev)
+SolosConcat(ev) == Concat([i \in 1..Len(ev.solos) |-> IF ev.solos[i].t = "ok" THEN ev.solos[i].v ELSE << >>])
 
-\* encode, then decode under the strictest options (C03, C04)
+VEncodeSeq(ev) ==
+  EncSeqTags(ev, << >>, 1)
+    \o (IF ~Has(ev, "solos") THEN << >>
+        ELSE IF \A i \in 1..Len(ev.solos) : ev.solos[i].t = "ok"
+          THEN T(Len(ev.outs) # Len(ev.items) \/ (\E i \in 1..Len(ev.outs) : ev.outs[i].t # "ok") \/ ev.buf # SolosConcat(ev),
+                 "position-dependent")
+        ELSE << >>)
+    \o IoTags(ev)
+
+\* encode, then decode under the strictest options (C03, C04).
+\* Three independent judgements: encoder against the specification (octets), decoder against the
+\* specification on the octets the implementation emitted (verdict / value / rem), and the round-trip
+\* relation itself on the implementation's own values (roundtrip / native-eq).
 VRoundtrip(ev) ==
-  LET sp == EncodeInto(<< >>, ev.kind, ev.v) IN
-  (IF ev.enc.t = "panic" THEN T(~sp.panic, "unexpected-panic")
-   ELSE IF sp.panic THEN <<"oversize-accepted">>
-   ELSE IF ev.enc.v # sp.buf THEN <<"octets">>
-   ELSE IF ev.kind = "msg"
-     THEN LET inDomain == IF ev.v.k = "Control" THEN ControlInDomain(ev.v, sp.buf) ELSE DataInDomain(ev.v, sp.buf)
-          IN MsgOutcomeTags(DecodeMessage(sp.buf, StrictOpts), ev.dec, ev.rem)
-             \o (IF ~inDomain THEN << >>
-                 ELSE IF ev.dec.t # "ok" THEN <<"roundtrip">>
-                 ELSE T(~MsgEq(ExpectedAfterRoundTrip(ev.v, sp.buf), ev.dec.v), "roundtrip")
-                      \o T(ev.rem # 0, "roundtrip") \o T(~ev.eq, "native-eq"))
-     ELSE LET spd == DecodeAvps(sp.buf) IN
-          (IF ~Finished(ev.dec) THEN <<"outcome-" \o ev.dec.t>>
-           ELSE T(~ItemsEq(spd.items, ev.dec.v), "value"))
-          \o (IF ~EncodableAvp(ev.v) THEN << >>
-              ELSE IF ~Finished(ev.dec) \/ Len(ev.dec.v) # 1 \/ ev.dec.v[1].t # "ok" THEN <<"roundtrip">>
-              ELSE T(~AvpEq(ev.v, ev.dec.v[1].v), "roundtrip") \o T(~ev.eq, "native-eq")))
-  \o IoTags(ev)
+  LET sp == EncodeInto(<< >>, ev.kind, ev.v)
+      encOk == ev.enc.t = "ok"
+      oct == IF encOk THEN ev.enc.v ELSE << >>
+      isMsg == ev.kind = "msg"
+      inDomain == /\ ~sp.panic
+                  /\ CASE ~isMsg -> EncodableAvp(ev.v)
+                       [] ev.v.k = "Control" -> ControlInDomain(ev.v, sp.buf)
+                       [] OTHER -> DataInDomain(ev.v, IF encOk THEN oct ELSE sp.buf)
+      decoded == encOk /\ Has(ev, "dec")
+  IN (IF ev.enc.t = "panic" THEN T(~sp.panic, "unexpected-panic")
+      ELSE IF ~encOk THEN <<"outcome-" \o ev.enc.t>>
+      ELSE IF sp.panic THEN <<"oversize-accepted">>
+      ELSE T(oct # sp.buf, "octets"))
+     \o (IF ~decoded THEN << >>
+         ELSE IF isMsg THEN MsgOutcomeTags(DecodeMessage(oct, StrictOpts), ev.dec, ev.rem)
+         ELSE IF ~Finished(ev.dec) THEN <<"outcome-" \o ev.dec.t>>
+         ELSE T(~ItemsEq(DecodeAvps(oct).items, ev.dec.v), "value"))
+     \o (IF ~inDomain THEN << >>
+         ELSE IF ~decoded \/ ~Finished(ev.dec) THEN <<"roundtrip">>
+         ELSE IF isMsg
+           THEN IF ev.dec.t # "ok" THEN <<"roundtrip">>
+                ELSE T(~MsgEq(ExpectedAfterRoundTrip(ev.v, oct), ev.dec.v) \/ ev.rem # 0, "roundtrip") \o T(~ev.eq, "native-eq")
+         ELSE IF Len(ev.dec.v) # 1 \/ ev.dec.v[1].t # "ok" THEN <<"roundtrip">>
+         ELSE T(~AvpEq(ev.v, ev.dec.v[1].v), "roundtrip") \o T(~ev.eq, "native-eq"))
+     \o IoTags(ev)
 
-\* decode -> encode -> strict decode -> encode (C10)
+\* decode -> encode -> strict decode -> encode (C10).
+\* The fixed-point relation is judged on the implementation's own values; agreement of the first
+\* decode and of the first encode with the specification is reported separately (verdict / value / octets).
 VChain(ev) ==
-  LET sp1 == DecodeMessage(ev.in, OptsOf(ev)) IN
-  (IF ~Finished(ev.m1) THEN <<"outcome-" \o ev.m1.t>>
-   ELSE IF sp1.res.t # ev.m1.t THEN <<"verdict">>
-   ELSE IF sp1.res.t # "ok" THEN << >>
-   ELSE IF ~MsgEq(sp1.res.v, ev.m1.v) THEN <<"value">>
-   ELSE IF sp1.res.v.k = "Data" /\ FlagO(U16At(ev.in, 0)) THEN << >>      \* outside C10's domain
-   ELSE IF ~Has(ev, "b1") THEN <<"chain-incomplete">>
-   ELSE LET e1 == EncodeMessage(sp1.res.v) IN
-        IF e1.panic THEN <<"harness-chain-panic">>
-        ELSE T(ev.b1 # e1.buf, "octets")
-             \o (IF ~Has(ev, "m2") \/ ~Finished(ev.m2) \/ ev.m2.t # "ok" THEN <<"not-stable-reject">>
-                 ELSE T(~MsgEqUpToLength(ev.m1.v, ev.m2.v), "not-stable-value")
-                      \o T(ev.m2.v.k = "Control" /\ ev.m2.v.length # Len(ev.b1), "not-stable-length")
-                      \o T(~Has(ev, "eq") \/ ~ev.eq, "native-eq")
-                      \o T(~Has(ev, "b2") \/ ev.b2 # ev.b1, "not-stable-octets")))
-  \o IoTags(ev)
+  LET sp1 == DecodeMessage(ev.in, OptsOf(ev))
+      m1ok == Finished(ev.m1) /\ ev.m1.t = "ok"
+  IN (IF ~Finished(ev.m1) THEN <<"outcome-" \o ev.m1.t>>
+      ELSE IF sp1.res.t # ev.m1.t THEN <<"verdict">>
+      ELSE T(sp1.res.t = "ok" /\ ~MsgEq(sp1.res.v, ev.m1.v), "value"))
+     \o T(m1ok /\ sp1.res.t = "ok" /\ MsgEq(sp1.res.v, ev.m1.v) /\ Has(ev, "b1")
+            /\ ev.b1 # EncodeMessage(sp1.res.v).buf, "octets")
+     \o (IF ~m1ok THEN << >>
+         ELSE IF ev.m1.v.k = "Data" /\ FlagO(U16At(ev.in, 0)) THEN << >>      \* outside C10's domain
+         ELSE IF Has(ev, "stage_panic") THEN <<"not-stable-panic">>
+         ELSE IF ~Has(ev, "b1") \/ ~Has(ev, "m2") THEN <<"chain-incomplete">>
+         ELSE IF ~Finished(ev.m2) \/ ev.m2.t # "ok" THEN <<"not-stable-reject">>
+         ELSE T(~MsgEqUpToLength(ev.m1.v, ev.m2.v), "not-stable-value")
+              \o T(ev.m2.v.k = "Control" /\ ev.m2.v.length # Len(ev.b1), "not-stable-length")
+              \o T(~Has(ev, "eq") \/ ~ev.eq, "native-eq")
+              \o T(~Has(ev, "b2") \/ ev.b2 # ev.b1, "not-stable-octets"))
+     \o IoTags(ev)
 
 ---------------------------------------------------------------------------
 \* hiding (H = MD5)
@@ -146,7 +173,9 @@ VReveal(ev) ==
    ELSE T(~ItemEq(sp, ev.out), "reveal-value")
         \o T(IsHidden(ev.v) /\ ev.out.t = "ok" /\ ev.out.v.k # "Hidden"
                /\ (~IsKnownType(ev.v.f[1]) \/ ev.out.v.k # KindName(ev.v.f[1])), "reveal-kind")
-        \o T(IsHidden(ev.v) /\ (ev.v.f[2] = << >> \/ Len(ev.v.f[2]) % Chunk # 0) /\ ev.out.t # "err", "reveal-accepts-bad"))
+        \* C13: empty / misaligned values and decrypted lengths that do not fit must be rejected
+        \o T(IsHidden(ev.v) /\ ev.out.t # "err" /\ sp.t = "err"
+               /\ sp.v.v \in {"EmptyHiddenAVP", "MisalignedHiddenAVP", "InvalidOriginalAVPLength"}, "reveal-accepts-bad"))
   \o IoTags(ev)
 
 \* hide, reveal directly, reveal after encode/decode (C11)
